@@ -470,7 +470,7 @@ func valueMapPart() {
 	}
 	for _, impl := range []string{"compactmap", "memdb"} {
 		for pass, al := range [][]tmpl{alpha, alphaZ} {
-			maxLen := r.Pick(3, 5)
+			maxLen := r.Pick(3, 4)
 			if pass == 1 {
 				maxLen = r.Pick(3, 4)
 			}
@@ -522,10 +522,10 @@ func valueMapPart() {
 		}
 	}
 	fmt.Fprintf(os.Stderr, "c05[%s]: valuemap exhaustive done at %.1fs\n", build, time.Since(tStart).Seconds())
-	r.Note(build+".valuemap_exhaustive", fmt.Sprintf("all sequences of <=%d ops (Set/Delete) and <=%d ops (Set/SetSizeZero/Delete) over 4 keys (existing, in-window, overflow, beyond-end) on a section prefilled with %d sparse keys", r.Pick(3, 5), r.Pick(3, 4), P))
+	r.Note(build+".valuemap_exhaustive", fmt.Sprintf("all sequences of <=%d ops (Set/Delete) and <=%d ops (Set/SetSizeZero/Delete) over 4 keys (existing, in-window, overflow, beyond-end) on a section prefilled with %d sparse keys", r.Pick(3, 4), r.Pick(3, 4), P))
 
 	// random long sequences with adversarial key orders
-	nseq, nops := r.Pick(18, 300), r.Pick(3000, 5000)
+	nseq, nops := r.Pick(18, 120), r.Pick(3000, 5000)
 	gens := []string{"ascending", "descending", "backjump-small", "backjump-large", "duplicates", "span"}
 	for s := 0; s < nseq; s++ {
 		gen := gens[s%len(gens)]
@@ -552,7 +552,7 @@ func valueMapPart() {
 
 	fmt.Fprintf(os.Stderr, "c05[%s]: valuemap random done at %.1fs\n", build, time.Since(tStart).Seconds())
 	// crossing the 100 000-entry section batch
-	ncross := r.Pick(1, 5)
+	ncross := r.Pick(1, 3)
 	for s := 0; s < ncross; s++ {
 		rng := r.SubRng(fmt.Sprintf("c05-vm-cross-%d", s))
 		c := vcase{Part: "valuemap", Impl: "compactmap", Build: build}
@@ -1081,11 +1081,14 @@ func runNmCaseQuiet(c nmcase, dir string) bool {
 func sortedDeletes(c nmcase, nm storage.NeedleMapper, closeNm func(), base string, ref refMap, keys map[uint64]bool) bool {
 	okAll := true
 	indeterminate := map[uint64]bool{} // keys whose delete returned an error: their state after a reload is not judged
-	var firstKey uint64
+	// keys of the first len(SortedDeletes) .idx entries (every S/D of the live memory map appends one): the sorted map's
+	// index offset starts at 0 and advances by one entry per delete, so these are the entries its tombstones overwrite
+	leading := map[uint64]bool{}
+	nEntries := 0
 	for _, o := range c.Ops {
-		if o.Kind == "S" || o.Kind == "D" {
-			firstKey = o.Key // key of the first .idx entry (every S/D of the live map appends one for the memory kind)
-			break
+		if (o.Kind == "S" || o.Kind == "D") && nEntries < len(c.SortedDeletes) {
+			leading[o.Key] = true
+			nEntries++
 		}
 	}
 	for _, k := range c.SortedDeletes {
@@ -1140,8 +1143,8 @@ func sortedDeletes(c nmcase, nm storage.NeedleMapper, closeNm func(), base strin
 		if l2 != want || (want && (o2 != e.off || s2 != e.size)) {
 			sig := lib.Sig{"op": "reload", "class": "lookup-differs", "live_kind": "sorted", "reload_kind": "sorted", "level": "needlemap",
 				"input": inputClass(e, ""), "after": "sorted-delete", "build": build, "victim": "other"}
-			if k == firstKey {
-				sig["victim"] = "key-of-first-idx-entry"
+			if leading[k] {
+				sig["victim"] = "key-of-an-overwritten-leading-idx-entry"
 			}
 			if r.Violation(sig, map[string]interface{}{"msg": "a key that was not touched by the deletes through the sorted map reads differently after reloading",
 				"key": k, "reloaded": []interface{}{ok2, o2, s2}, "ref_state": e.st, "ref_off": e.off, "ref_size": e.size, "case": c}) {
@@ -1172,7 +1175,7 @@ func needleMapPart() {
 	}
 	for _, kind := range []string{"memory", "leveldb"} {
 		for pass, al := range [][]tmpl{alpha, alphaZ} {
-			maxLen := r.Pick(3, 5)
+			maxLen := r.Pick(3, 4)
 			if pass == 1 {
 				maxLen = r.Pick(3, 4)
 			}
@@ -1227,7 +1230,7 @@ func needleMapPart() {
 		}
 	}
 	r.Note(build+".needlemap_exhaustive", fmt.Sprintf("memory: all sequences of <=%d ops (Put/Delete) and <=%d (with size-0 puts) over keys {7,3,7+2^32}; leveldb: <=%d ops; counters and lookups compared with a fresh load of the same .idx at the end of every sequence",
-		r.Pick(3, 5), r.Pick(3, 4), r.Pick(2, 3)))
+		r.Pick(3, 4), r.Pick(3, 4), r.Pick(2, 3)))
 
 	// one large all-distinct sequence: the bloom filter of newNeedleMapMetricFromIndexFile (0.1 % false positives at
 	// capacity) is expected to miscount; whatever it does is measured, not assumed
@@ -1249,7 +1252,7 @@ func needleMapPart() {
 	}
 
 	// random sequences: <=500 keys where counters of the bloom-filter loaders are compared
-	nseq := r.Pick(12, 240)
+	nseq := r.Pick(12, 96)
 	gens := []string{"ascending", "descending", "backjump-small", "backjump-large", "duplicates", "span"}
 	for s := 0; s < nseq; s++ {
 		gen := gens[s%len(gens)]
@@ -1390,6 +1393,7 @@ func runVolCase(c volcase) bool {
 		return e
 	}
 	hasZero := false
+	aliasDelete := false // a (listed) aliasing delete happened: the .idx now holds a tombstone of a key that never existed
 	putKeys := map[uint64]bool{}
 	rng := rand.New(rand.NewSource(int64(len(c.Ops))))
 	okAll := true
@@ -1481,6 +1485,7 @@ func runVolCase(c volcase) bool {
 					"target": []string{"absent", "live", "already-deleted"}[e.st], "returned": "other"}
 				if _, ok := volAlias(ref, o.Key); ok && e.st == 0 && size > 0 {
 					sig["alias"] = aliasTag
+					aliasDelete = true
 					for k2, e2 := range ref {
 						if k2 != o.Key && e2.st != 0 && (o.Key-k2)%(1<<32) == 0 {
 							if res, _ := volRead(s, vid, k2); res.Class == "ok" {
@@ -1531,6 +1536,9 @@ func runVolCase(c volcase) bool {
 					sig["input"] = "size-zero"
 				}
 				sig["relation"] = relation(name, loader, hasZero, a, b, uint64(len(putKeys)), idxEntries, uint64(after.FileCount))
+				if aliasDelete && loader == "doLoading" {
+					sig["alias"] = aliasTag
+				}
 				if r.Violation(sig, map[string]interface{}{"msg": "volume counter after reopen differs", "counter": name, "before": before, "after": after, "at": i, "case": c}) {
 					okAll = false
 				}
@@ -1567,7 +1575,7 @@ func runVolCase(c volcase) bool {
 }
 
 func volumePart() {
-	nseq := r.Pick(6, 80)
+	nseq := r.Pick(6, 40)
 	for s := 0; s < nseq; s++ {
 		kind := "memory"
 		if s%3 == 2 {
